@@ -2,7 +2,10 @@
 Tie: Go's control-message encoders + the library's parser vs Socket/Oob.v; histories of sends/receives on a real
 socket pair (payload sizes 0..beyond the buffer, 0..253 descriptors, credentials, refused sends) vs the raw-layer
 model; typed histories through the gob-framed protocol socket (first use of each type, oversize, refused sends)
-vs the framed model.  Oracle: whole-or-error, identities in order, close-on-exec, descriptor count unchanged."""
+vs the framed model.  Oracle: whole-or-error, identities in order, close-on-exec, descriptor count unchanged.
+State of the receiver: histories (raw and framed) in which the receiving process has room for only r more descriptors
+(RLIMIT_NOFILE, r around the number attached) at the moment of a receive: a message arrives with every attached
+descriptor or is rejected, nothing leaks, and the messages that follow arrive whole and in order."""
 import os
 
 from vlib import coq_list, coq_bool, coq_N
@@ -11,7 +14,9 @@ FINISH = dict(level="proof", rule=(
     "oob: random descriptor lists (0..253 numbers up to 2^31) with/without credentials; raw: random histories of 2..14 "
     "sends/receives with payload sizes {0,1,10,4095,4096,4097,20000,65536}, receive buffers {1,10,4096,32768,70000}, "
     "descriptor counts {0,1,2,3,16,253}, refused sends; framed: random histories of 3..12 typed messages of sizes "
-    "{5,100,20000,30000,33000,40000} with descriptors and refused sends.  Non-trivial: a history with at least one rejected "
+    "{5,100,20000,30000,33000,40000} with descriptors and refused sends; receiver short of room: further raw and framed "
+    "histories in which the receiver's descriptor table has room for r in {0,1,2,3,k/2,k-1,k,k+1} descriptors when a message with k "
+    "descriptors is received (free slots low / high / spread).  Non-trivial: a history with at least one rejected "
     "message; distinct = distinct history bodies."))
 
 HDR = "From GS Require Import Socket.Oob Socket.Frame Socket.EvalSock.\nOpen Scope N_scope.\n"
@@ -23,6 +28,15 @@ def run(c):
     env = dict(os.environ, VERIF_SCRATCH=scratch)
     dis = []
     nums = lambda out: c.parse_nums(c.parse_printed(out, "M").replace("%N", ""))
+
+    def failing(name, ok, items, chunk):
+        """indices of the items the Coq comparison `ok` rejects; evaluated `chunk` items at a time (one file with thousands of
+        histories does not fit the time and memory of one coqc run)"""
+        bad = []
+        for off in range(0, len(items), chunk):
+            body = HDR + "Definition cs := %s.\nDefinition M := Eval vm_compute in failing %s cs.\nPrint M.\n" % (coq_list(items[off:off + chunk]), ok)
+            bad += [off + i for i in nums(c.coq_eval(name if off == 0 else "%s_%d" % (name, off // chunk), body, timeout=900))]
+        return bad
     r = c.rng("oob")
     # ---------------------------------------------------------------- control data
     oc = []
@@ -51,7 +65,8 @@ def run(c):
     # ---------------------------------------------------------------- raw histories
     r = c.rng("raw")
     rc = []
-    for i in range(120 if c.quick() else 1200):
+
+    def gen_raw(r, i):
         ops, queued, sizes = [], 0, []
         for _ in range(r.randint(2, 14)):
             n = r.choice([0, 1, 10, 4095, 4096, 4097, 20000, 65536])
@@ -86,9 +101,34 @@ def run(c):
             for op in ops:
                 if op["op"] == "send":
                     op["cred"] = True
+        return case
+
+    for i in range(120 if c.quick() else 1200):
+        rc.append(gen_raw(r, i))
+    # ---- the receiver short of room in its descriptor table: how many of the attached descriptors the kernel can install depends
+    # on the state of the receiving process (RLIMIT_NOFILE), not on any size.  Same histories, from a stream of their own; a receive
+    # finds room for r descriptors, r around the number k attached to the message it is going to receive.
+    r2 = c.rng("raw-room")
+    for i in range(len(rc), len(rc) + (40 if c.quick() else 400)):
+        case = gen_raw(r2, i)
+        q = []
+        some = False
+        for op in case["ops"]:
+            if op["op"] == "send" and not op["bad_fd"]:
+                q.append(op["fds"])
+            elif op["op"] == "recv":
+                k = q.pop(0)
+                if r2.random() < 0.5 or (k > 0 and not some):
+                    op["room"] = r2.choice([0, 1, 2, 3, k // 2, max(k - 1, 0), max(k - 1, 0), k, k + 1])
+                    op["room_where"] = r2.choice(["low", "high", "spread"])
+                    some = some or k > 0
+        case["receiver_short_of_room"] = True
         rc.append(case)
+    c.log("control data compared; %d raw histories" % len(rc))
     ro = c.run_harness(exe, rc, env=env, timeout=900)
+    c.log("raw histories run")
     items = []
+    nshort = [0, 0]     # receives that found less room than descriptors attached: raw, framed
     for x, o in zip(rc, ro):
         if "harness_err" in o:
             raise RuntimeError(o["harness_err"])
@@ -110,14 +150,33 @@ def run(c):
             else:
                 sop, sfl = sent.pop(0)
                 got = [idmap.get(tuple(v), 0) for v in ob["ids"]]
-                mops.append("ORecv %d" % op["buf"])
+                # room: how many more descriptors the receiving process could take when it received (None: plenty)
+                room = op.get("room")
+                if room is not None and ob.get("room_seen") != room:
+                    raise RuntimeError("harness: receiver was to have room for %d descriptors, it has room for %s" % (room, ob.get("room_seen")))
+                short = room is not None and room < len(sfl)
+                mops.append("ORecv %d" % op["buf"] if room is None else "ORecvRoom %d %d" % (op["buf"], room))
                 mobs.append("BErr" if ob["err"] else "BOk %d %s %s" % (ob["n"], coq_list([str(f) + "%nat" for f in got]), coq_bool("cred" in ob)))
-                canon = lambda what, **kw: dict({"kind": "raw-socket", "what": what, "payload": sop["n"], "fds": sop["fds"], "buf": op["buf"]}, **kw)
-                if ob["err"]:
+                canon = lambda what, **kw: dict({"kind": "raw-socket", "what": what, "payload": sop["n"], "fds": sop["fds"], "buf": op["buf"]},
+                                                **dict(kw, **({} if room is None else {"receiver_room": room})))
+                # what is shown with a failure in a history where the receiver is short of room
+                tight = {} if room is None else {
+                    "failing_op": len(mops) - 1, "message": sop, "receiver_room_for_descriptors": room, "free_slots": op.get("room_where"),
+                    "expected": ("the kernel can install only %d of the %d attached descriptors: RecvMsg returns an error, leaves no descriptor behind, "
+                                 "and the next messages arrive whole" % (room, len(sfl))) if short else
+                                "there is room for all %d attached descriptors: the message arrives whole with exactly these" % len(sfl),
+                    "observed": {"err": ob["err"], "bytes": ob["n"], "descriptors_received": ob.get("nfds"), "descriptors_attached": len(sfl)}}
+                kl = None if room is None else "raw-socket-receiver-short-of-room"
+                if short:
+                    nshort[0] += 1
+                if ob["err"] and short:
+                    # rejected because the descriptors cannot all be installed: what the property asks for
+                    rejected = True
+                elif ob["err"]:
                     rejected = True
                     if sop["n"] <= op["buf"] and not (sop["n"] == 0 and sop["fds"] == 0 and not sop["cred"]):
                         c.finding_or_violation(canon("a fitting message was rejected: " + ob["err"], empty_payload=sop["n"] == 0),
-                                               {"history": x["ops"]})
+                                               dict({"history": x["ops"]}, **tight), klass=kl)
                     elif sop["n"] == 0:
                         c.finding_or_violation(canon("empty message reported as an error", empty_payload=True, with_attachments=False), {"history": x["ops"]})
                 else:
@@ -125,17 +184,17 @@ def run(c):
                         c.finding_or_violation(canon("payload not delivered whole", received=ob["n"], empty_payload=sop["n"] == 0,
                                                      with_attachments=sop["fds"] > 0 or sop["cred"]), {"history": x["ops"]})
                     if got != sfl:
-                        c.finding_or_violation(canon("descriptors differ (identity / order / count)"), {"history": x["ops"], "sent": sfl, "received": got})
+                        c.finding_or_violation(canon("descriptors differ (identity / order / count)"), dict({"history": x["ops"], "sent": sfl, "received": got}, **tight),
+                                               klass=kl)
                     if not ob["cloexec"]:
                         c.finding_or_violation(canon("received descriptor is not close-on-exec"), {"history": x["ops"]})
                     if sop["cred"] and ob.get("cred") != [o["pid"], o["uid"], o["gid"]]:
                         c.finding_or_violation(canon("credentials differ"), {"history": x["ops"], "received": ob.get("cred")})
         if o["fd_delta"] != 0:
             c.finding_or_violation({"kind": "raw-socket", "what": "descriptors leaked in the process", "delta": o["fd_delta"]}, {"history": x["ops"]})
-        c.count(("raw", str(x["ops"])), nontrivial=rejected, klass="raw:" + ("rejecting" if rejected else "clean"))
+        c.count(("raw", str(x["ops"])), nontrivial=rejected, klass=("raw-short-of-room:" if x.get("receiver_short_of_room") else "raw:") + ("rejecting" if rejected else "clean"))
         items.append("(%s, %s)" % (coq_list(mops), coq_list(mobs)))
-    body = HDR + "Definition cs := %s.\nDefinition M := Eval vm_compute in failing raw_ok cs.\nPrint M.\n" % coq_list(items)
-    for i in nums(c.coq_eval("raw", body, timeout=900)):
+    for i in failing("raw", "raw_ok", items, 300):
         dis.append({"relation": "raw_ok (SendMsg/RecvMsg history vs raw_run)", "history": rc[i]["ops"], "observed": ro[i]["obs"]})
     c.sample({"kind": "raw", "history": rc[0]["ops"], "observed": ro[0]["obs"]})
 
@@ -148,7 +207,21 @@ def run(c):
             msgs.append({"type": r.choice("ABC"), "size": r.choice([5, 100, 100, 20000, 30000, 33000, 40000]), "fds": r.choice([0, 0, 1, 3]),
                          "bad_fd": r.random() < 0.07})
         fc.append({"id": i, "kind": "framed", "msgs": msgs})
+    # ---- the receiver short of room in its descriptor table, through the framed layer (stream of its own)
+    r2 = c.rng("framed-room")
+    for i in range(len(fc), len(fc) + (40 if c.quick() else 400)):
+        msgs = []
+        for _ in range(r2.randint(3, 12)):
+            k = r2.choice([0, 1, 2, 3, 5, 16])
+            m = {"type": r2.choice("ABC"), "size": r2.choice([5, 100, 100, 20000, 30000, 30000, 33000]), "fds": k, "bad_fd": r2.random() < 0.05}
+            if r2.random() < 0.5:
+                m["room"] = r2.choice([0, 1, 2, k // 2, max(k - 1, 0), max(k - 1, 0), k, k + 1])
+                m["room_where"] = r2.choice(["low", "high", "spread"])
+            msgs.append(m)
+        fc.append({"id": i, "kind": "framed", "msgs": msgs, "receiver_short_of_room": True})
+    c.log("raw histories compared; %d framed histories" % len(fc))
     fo = c.run_harness(exe, fc, env=env, timeout=900)
+    c.log("framed histories run")
     items = []
     tnum = {"A": 1, "B": 2, "C": 3}
     for x, o in zip(fc, fo):
@@ -156,12 +229,27 @@ def run(c):
             raise RuntimeError(o["harness_err"])
         mm, obs_ok = [], []
         poisoned_types = set()
+        rpoisoned = {}       # types whose first value was rejected by the receiver: the decoder has not seen their description
         described = set()
         anyrej = False
         for j, (m, ob) in enumerate(zip(x["msgs"], o["obs"])):
             lost = ob["send_err"] is not None
-            mm.append("(%d%%nat, %d%%nat, %s)" % (tnum[m["type"]], j, coq_bool(lost)))
-            canon = lambda what, **kw: dict({"kind": "framed-socket", "what": what, "type": m["type"], "size": m["size"]}, **kw)
+            room = m.get("room")
+            if not lost and room is not None and ob.get("room_seen") != room:
+                raise RuntimeError("harness: receiver was to have room for %d descriptors, it has room for %s" % (room, ob.get("room_seen")))
+            # short: the receiving process cannot take all the attached descriptors: the message is to be rejected by the receiver
+            short = not lost and room is not None and room < m["fds"]
+            rrej = short and not ob.get("recv_hang") and ob["recv_err"] is not None
+            # a packet the receiver rejected never reaches the decoder: for the stream it is as if it had not reached the wire
+            mm.append("(%d%%nat, %d%%nat, %s)" % (tnum[m["type"]], j, coq_bool(lost or rrej)))
+            canon = lambda what, **kw: dict({"kind": "framed-socket", "what": what, "type": m["type"], "size": m["size"]},
+                                            **dict(kw, **({} if room is None else {"receiver_room": room, "fds": m["fds"]})))
+            tight = {} if room is None or lost else {
+                "failing_message": j, "message": m, "receiver_room_for_descriptors": room,
+                "expected": ("the kernel can install only %d of the %d attached descriptors: RecvMsg returns an error and leaves no descriptor behind"
+                             % (room, m["fds"])) if short else "there is room for all %d attached descriptors: the message arrives whole with exactly these" % m["fds"],
+                "observed_here": {"recv_err": ob.get("recv_err"), "descriptors_received": ob.get("nfds"), "descriptors_attached": m["fds"]}}
+            kl = None if room is None else "framed-socket-receiver-short-of-room"
             if lost:
                 anyrej = True
                 if not m["bad_fd"] and m["size"] <= 30000:
@@ -172,7 +260,16 @@ def run(c):
                 continue
             if m["size"] >= 33000:
                 c.finding_or_violation(canon("an oversize message was put on the wire"), {"history": x["msgs"]})
+            first_use = m["type"] not in described
             described.add(m["type"])
+            if short:
+                nshort[1] += 1
+            if rrej:
+                # rejected because the descriptors cannot all be installed: what the property asks for
+                anyrej = True
+                if first_use:
+                    rpoisoned[m["type"]] = j
+                continue
             if ob.get("recv_hang"):
                 c.finding_or_violation(canon("a message the sender accepted is never delivered: the receiver waits for ever", index=j), {"history": x["msgs"], "observed": o["obs"]},
                                        klass="framed-lost")
@@ -180,17 +277,28 @@ def run(c):
             good = ob["recv_err"] is None
             obs_ok.append(coq_bool(good))
             if good and not (ob["seq"] == j and ob["payload_ok"] and ob["fds_ok"]):
-                c.finding_or_violation(canon("message not delivered whole / in order", seq=ob["seq"], index=j), {"history": x["msgs"], "observed": o["obs"]})
-            if not good:
+                c.finding_or_violation(canon("message not delivered whole / in order", seq=ob["seq"], index=j),
+                                       dict({"history": x["msgs"], "observed": o["obs"]}, **tight), klass=kl)
+            if not good and m["type"] in rpoisoned and m["type"] not in poisoned_types:
+                # not the message's own fault: an earlier message of this type was rejected by the receiver (no room for its descriptors)
+                c.finding_or_violation({"kind": "framed-socket-after-receiver-rejection",
+                                        "what": "after the receiver rejected the first message of a type (its descriptors could not all be installed), "
+                                                "later messages of that type are not received: " + ob["recv_err"][:60], "type": m["type"], "size": m["size"]},
+                                       {"history": x["msgs"], "failing_message": j, "message": m, "first_message_of_the_type_rejected_by_the_receiver": rpoisoned[m["type"]],
+                                        "expected": "message %d fits, was accepted by the sender, and the receiver has room for its %d descriptors: it is received whole"
+                                                    % (j, m["fds"]),
+                                        "observed_here": {"recv_err": ob["recv_err"], "earlier_rejection": o["obs"][rpoisoned[m["type"]]].get("recv_err")},
+                                        "observed": o["obs"]}, klass="framed-after-receiver-rejection", per_class=1)
+            elif not good:
                 c.finding_or_violation(canon("a sent message was not received: " + ob["recv_err"][:60],
                                              after_rejected_first_use_of_type=m["type"] in poisoned_types),
-                                       {"history": x["msgs"], "observed": o["obs"]})
+                                       dict({"history": x["msgs"], "observed": o["obs"]}, **tight), klass=kl)
         if o["fd_delta"] != 0:
             c.finding_or_violation({"kind": "framed-socket", "what": "descriptors leaked", "delta": o["fd_delta"]}, {"history": x["msgs"]})
         if o.get("abandoned"):
             c.count(("framed", str(x["msgs"])), nontrivial=True, klass="framed:abandoned")
             continue
-        c.count(("framed", str(x["msgs"])), nontrivial=anyrej, klass="framed:" + ("rejecting" if anyrej else "clean"))
+        c.count(("framed", str(x["msgs"])), nontrivial=anyrej, klass=("framed-short-of-room:" if x.get("receiver_short_of_room") else "framed:") + ("rejecting" if anyrej else "clean"))
         items.append("(%s, %s)" % (coq_list(mm), coq_list(obs_ok)))
     # ---- both directions of one framed connection at once (the host's and the container's send and receive loops run concurrently)
     du = c.run_harness(exe, [{"id": 0, "kind": "duplex", "n": 400 if c.quick() else 4000, "size": 24000}], env=env, timeout=300)[0]
@@ -204,6 +312,7 @@ def run(c):
     for i in nums(c.coq_eval("framed", body, timeout=900)):
         dis.append({"relation": "framed_ok (gob-framed history vs run_lost)", "history": fc[i]["msgs"], "observed": fo[i]["obs"]})
     c.sample({"kind": "framed", "history": fc[0]["msgs"], "observed": fo[0]["obs"]})
+    c.cov["receives_short_of_room"] = {"raw": nshort[0], "framed": nshort[1]}
     c.cov["correspondence_disagreements"] = len(dis)
     if dis:
         c.cov["disagreement_samples"] = dis[:5]
